@@ -105,7 +105,7 @@ def node_st(draw, depth, state):
     k = draw(st.integers(0, 9))
     if depth > 0 and k <= 1:
         body = [draw(node_st(depth - 1, state)) for _ in range(draw(st.integers(1, 3)))]
-        return {'k': 'rep', 'factor': draw(st.sampled_from([0, 1, 2, 2, 3, 4])), 'body': body, 'bracket': True}
+        return {'k': 'rep', 'factor': draw(st.sampled_from([0, 1, 2, 2, 3, 4, 10, 12])), 'body': body, 'bracket': True}
     if k == 2:
         leaf = draw(leaf_st(False))
         if (leaf['k'] in ('tok', 'gol', 'pad') and leaf.get('place', 'pos') == 'pos') or leaf['k'] == 'struct':
@@ -490,7 +490,7 @@ def run_factor(case):
     """'n*(f)' equals f written n times (same values each time)"""
     bs = bitstring_module()
     body = case['ast']
-    n = [0, 1, 2, 2, 3, 3, 4][case['split'] % 7]
+    n = [0, 1, 2, 2, 3, 3, 4, 10, 11, 20][case['split'] % 10]
     r1 = Render(bs, 'pack', case['ws'], all_literal=False)
     inner = r1.nodes(body)
     once_vals = list(r1.vals)
